@@ -98,6 +98,7 @@ func checkC01(c *Ctx) {
 	r.Import("C15.", "C01.j", "", 40, func() { checkC15(c) })
 	r.Import("C06.i", "C01.l", "a continuation token (else, elif, bar, operator) found after skipping line ends is accepted only inside the offside line — otherwise an inner construct takes the else of an outer one and the wrong branch runs (the C06.i rule; 2 known findings)", 2, func() { checkContinuationColumns(c, f) })
 	checkReviewedForms(c, f)
+	checkReviewedHandWritten(c, f)
 	checkBinderNames(c, f)
 	checkListOrder(c, "C01.j", f)
 	c.checkPins(f, "C01.j", exprTypePins)
